@@ -31,7 +31,7 @@ ASSUMPTIONS = [
 ]
 FLOORS = {
     "quick": {"eval:line_coordinates": 20000, "eval:grid_coordinates": 1500, "eval:spacing_to_size": 20000,
-              "eval:profile_coordinates": 100, "eval:shape_to_spacing": 100, "distinct_nontrivial": 5000, "class:long_line": 100, "class:long_line_50k": 15, "eval:ownership": 350, "eval:arguments_unmodified": 40000, "class:ndarray_shape_and_region": 50, "class:near_tie_not_at_tie": 100, "class:grid_near_tie": 50},
+              "eval:profile_coordinates": 100, "eval:shape_to_spacing": 100, "distinct_nontrivial": 5000, "class:long_line": 100, "class:long_line_50k": 15, "eval:ownership": 350, "eval:arguments_unmodified": 40000, "class:ndarray_shape_and_region": 50, "class:near_tie_not_at_tie": 100, "class:profile_extreme_magnitude": 40, "class:grid_near_tie": 50},
     "thorough": {"eval:line_coordinates": 200000, "eval:grid_coordinates": 10000, "distinct_nontrivial": 50000},
 }
 JOBS = {"quick": 1, "thorough": 16}
@@ -447,6 +447,9 @@ def run_case(run, tap, stream, index, rng):
     elif stream == "profile":
         for _ in range(30):
             scale = 10 ** rng.uniform(-3, 6)
+            if rng.random() < 0.3:  # extreme magnitudes: squares of the coordinate differences under- or overflow, the differences do not
+                scale = 10 ** float(rng.choice([rng.uniform(-250, -150), rng.uniform(-150, -20), rng.uniform(20, 150), rng.uniform(150, 250)]))
+                run.count("class:profile_extreme_magnitude")
             p1 = tuple(float(v) for v in rng.normal(size=2) * scale)
             p2 = tuple(float(v) for v in rng.normal(size=2) * scale + rng.choice([0, 1e3]) * scale)
             if rng.random() < 0.15:
